@@ -24,6 +24,7 @@ const repoModule = "github.com/oauth2-proxy/oauth2-proxy/v7"
 type Harness struct {
 	Name          string // function name, e.g. vh_C06_rel
 	Prop          string
+	Also          []string // further properties this harness serves
 	Pkg           string
 	Fn            *ssa.Function
 	Unwind        int
@@ -76,7 +77,7 @@ func (w *World) knownFor(h *Harness, obligation string) []KnownFinding {
 		if k.Status == "fixed" {
 			continue
 		}
-		if k.Property == h.Prop && (k.Harness == "" || k.Harness == h.Name) && k.Obligation == obligation {
+		if h.serves(k.Property) && (k.Harness == "" || k.Harness == h.Name) && k.Obligation == obligation {
 			out = append(out, k)
 		}
 	}
@@ -105,8 +106,17 @@ func (w *World) buildOverlay(props map[string]bool) error {
 		}
 		// file name: zz_verif_<PROP>_*.go or zz_verif_common*.go
 		parts := strings.Split(strings.TrimSuffix(base, ".go"), "_")
-		if len(parts) >= 3 && strings.HasPrefix(parts[2], "C") && len(props) > 0 && !props[parts[2]] {
-			return nil
+		if len(parts) >= 3 && strings.HasPrefix(parts[2], "C") && len(props) > 0 {
+			// zz_verif_<PROP>[_<PROP>...]_name.go: loaded when any listed property is selected
+			hit := false
+			for _, pt := range parts[2:] {
+				if props[pt] {
+					hit = true
+				}
+			}
+			if !hit {
+				return nil
+			}
 		}
 		rel, _ := filepath.Rel(root, filepath.Dir(p))
 		if rel == "root" {
@@ -249,6 +259,8 @@ func (w *World) load() error {
 								h.StageATimeout = n
 							case "upgrade":
 								h.Upgrade = true
+							case "also":
+								h.Also = strings.Split(v, ",")
 							}
 						}
 					}
@@ -280,8 +292,17 @@ func (w *World) loadKnown() {
 
 // blocked: packages whose code must never be executed symbolically (huge,
 // reflective or I/O bound); reaching them means a stub is missing.
+var unblocked = map[string]bool{
+	"(net/http.HandlerFunc).ServeHTTP": true,
+	"(*fmt.wrapError).Error":           true,
+	"(*fmt.wrapError).Unwrap":          true,
+}
+
 func (w *World) blocked(fn *ssa.Function) bool {
 	if fn.Pkg == nil {
+		return false
+	}
+	if unblocked[fn.String()] {
 		return false
 	}
 	p := fn.Pkg.Pkg.Path()
@@ -401,7 +422,7 @@ func (e *Exec) initGlobal(g *ssa.Global, obj *Object) {
 		return
 	}
 	initFn := g.Pkg.Func("init")
-	fr := &Frame{fn: initFn, env: map[ssa.Value]Value{}, visits: map[*ssa.BasicBlock]int{}}
+	fr := &Frame{fn: initFn, env: map[ssa.Value]Value{}, visits: map[*ssa.BasicBlock]int{}, lastFork: map[*ssa.BasicBlock]int{}}
 	saved := e.cur
 	for _, ins := range instrs {
 		e.cur = ins
@@ -415,3 +436,27 @@ func (e *Exec) initGlobal(g *ssa.Global, obj *Object) {
 }
 
 func typeString(t types.Type) string { return types.TypeString(t, nil) }
+
+// findMethod looks a method up by name in the method set of t (nil if absent).
+func (w *World) findMethod(t types.Type, name string) *ssa.Function {
+	ms := w.prog.MethodSets.MethodSet(t)
+	for i := 0; i < ms.Len(); i++ {
+		sel := ms.At(i)
+		if sel.Obj().Name() == name {
+			return w.prog.MethodValue(sel)
+		}
+	}
+	return nil
+}
+
+func (h *Harness) serves(prop string) bool {
+	if h.Prop == prop {
+		return true
+	}
+	for _, a := range h.Also {
+		if a == prop {
+			return true
+		}
+	}
+	return false
+}
